@@ -58,6 +58,13 @@ def classify(src_tree, placement):
             feats.add('not-used-as-value')
         if isinstance(n, ast.Compare) and len(n.ops) > 1:
             feats.add('chained-compare')
+    if placement == 'elt':
+        # a conditional expression in element position whose TEST mixes `not` with and/or (known finding, see known_findings.json)
+        for n in ast.walk(src_tree):
+            if isinstance(n, ast.IfExp):
+                sub = list(ast.walk(n.test))
+                if any(isinstance(x, ast.BoolOp) for x in sub) and any(isinstance(x, ast.UnaryOp) and isinstance(x.op, ast.Not) for x in sub):
+                    return 'ifexp-test-mixes-not-with-and-or'
     if 'ifexp-as-operand' in feats or 'nested-ifexp' in feats: return 'ifexp-as-operand'
     if 'boolop-used-as-value' in feats: return 'boolop-used-as-value'
     if 'not-used-as-value' in feats: return 'not-used-as-value'
@@ -198,6 +205,14 @@ def run(tier, seed, only=None):
     for e in boolfam[::5]:
         progs.append(('lambda', 'lambda x: (%s)' % e))
         progs.append(('elt', '((%s) for x in T)' % e))
+    # boolean skeletons as the TEST of a conditional expression (its own jump pattern), in every placement
+    for t in exprgen.bool_family(2, kinds=['{v}', '{v} is None'], names='bc') + exprgen.bool_family(3, kinds=['{v}'], names='bcd')[::3]:
+        e = 'a if (%s) else d' % t
+        if e in seen: continue
+        seen.add(e)
+        progs.append(('elt', '((%s) for x in T)' % e))
+        progs.append(('cond', '(x for x in T if (%s))' % e))
+        progs.append(('lambda', 'lambda x: (%s)' % e))
     for g in MULTI:
         progs.append(('gen', g))
     n = 0
